@@ -11,6 +11,7 @@ import (
 	"bufio"
 	"encoding/hex"
 	"encoding/json"
+	"expvar"
 	"fmt"
 	"io"
 	"os"
@@ -18,6 +19,7 @@ import (
 	"os/signal"
 	"runtime"
 	"runtime/debug"
+	"strconv"
 	"strings"
 	"sync"
 	"syscall"
@@ -56,6 +58,54 @@ type Resp struct {
 	RunMsg    string `json:"run_msg,omitempty"`
 	LexUS     int64  `json:"lex_us"`
 	ParseUS   int64  `json:"parse_us"`
+	// deterministic work measures of the ParseString call (Parse requests only): heap objects
+	// allocated while it ran (runtime.MemStats.Mallocs, exact: the child parses on one goroutine),
+	// and — when the tree carries the verif-tagged parser hook, which publishes the expvar
+	// "origami.parser.advances" — the number of forward steps of the parser position (-1 without the
+	// hook) together with the number of tokens the source has (interpolation children included) and
+	// their deepest bracket nesting
+	ParseAllocs uint64 `json:"parse_allocs"`
+	ParseAdv    int64  `json:"parse_adv"`
+	ParseTokens int    `json:"parse_tokens"`
+	ParseDepth  int    `json:"parse_depth"`
+}
+
+// parserAdvances reads the counter published by the parser's verif hook (-1: no hook in this tree).
+func parserAdvances() int64 {
+	if v := expvar.Get("origami.parser.advances"); v != nil {
+		if n, err := strconv.ParseInt(v.String(), 10, 64); err == nil {
+			return n
+		}
+	}
+	return -1
+}
+
+// countTokens: tokens of src as the parser will see them, children of interpolated strings
+// included, and the deepest nesting of ( [ { among them (a child list starts at its parent's depth)
+func countTokens(src string) (n, depth int) {
+	defer func() { recover() }()
+	var walk func(ts []lexer.Token, d int)
+	walk = func(ts []lexer.Token, d int) {
+		for _, t := range ts {
+			n++
+			switch t.Type() {
+			case token.LPAREN, token.LBRACKET, token.LBRACE:
+				d++
+				if d > depth {
+					depth = d
+				}
+			case token.RPAREN, token.RBRACKET, token.RBRACE:
+				if d > 0 {
+					d--
+				}
+			}
+			if lt, ok := t.(*lexer.LingToken); ok {
+				walk(lt.Children(), d)
+			}
+		}
+	}
+	walk(lexer.NewLexer().Tokenize(src), 0)
+	return
 }
 
 func init() { vh.RegisterChild("lexparse", childMain) }
@@ -235,6 +285,9 @@ func childMain(args []string) int {
 				}
 			}
 		} else if rq.Parse {
+			var ms0, ms1 runtime.MemStats
+			runtime.ReadMemStats(&ms0)
+			adv0 := parserAdvances()
 			t0 := time.Now()
 			func() {
 				defer func() {
@@ -261,6 +314,13 @@ func childMain(args []string) int {
 				}
 			}()
 			rs.ParseUS = time.Since(t0).Microseconds()
+			runtime.ReadMemStats(&ms1)
+			rs.ParseAllocs = ms1.Mallocs - ms0.Mallocs
+			rs.ParseAdv = -1
+			if adv0 >= 0 {
+				rs.ParseAdv = parserAdvances() - adv0
+				rs.ParseTokens, rs.ParseDepth = countTokens(src)
+			}
 		}
 		jb, _ := json.Marshal(rs)
 		out.Write(jb)
